@@ -274,6 +274,39 @@ func c15ContainsLaw(c *Case) {
 			}
 		}
 	}
+	// sort() yields a new array also when there is nothing to reorder: changing either leaves the other alone
+	for ln := 0; ln <= 3; ln++ {
+		for variant := 0; variant < 6; variant++ {
+			var items []Expr
+			for i := 0; i < ln; i++ {
+				items = append(items, N(strconv.Itoa(5-i)))
+			}
+			a, b := Expr(V("a")), Expr(V("b"))
+			init := []Stmt{asg(a, Arr(items...))}
+			switch variant {
+			case 1: // held by a member
+				a = Mem(V("o"), "list")
+				init = []Stmt{asg(V("o"), &ObjectLit{}), asg(a, Arr(items...))}
+			case 2: // emptied / shortened by pop first
+				init = []Stmt{asg(a, Arr(append(items, N("0"), N("0"))...)), ES(Meth(a, "pop")), ES(Meth(a, "pop"))}
+			case 3: // sorted twice
+				init = append(init, asg(V("c"), Meth(a, "sort")))
+			}
+			body := append(init, asg(b, Meth(a, "sort")), Pr(S("sorted"), jsonOf(a), jsonOf(b)))
+			switch variant % 3 {
+			case 0:
+				body = append(body, asg(Idx(b, N("0")), S("w")), Pr(S("result-stored"), jsonOf(a), jsonOf(b)), asg(Idx(a, N("0")), S("r")), Pr(S("receiver-stored"), jsonOf(a), jsonOf(b)))
+			case 1:
+				body = append(body, ES(Meth(b, "push", N("7"))), ES(Meth(a, "push", N("8"))), Pr(S("both-pushed"), jsonOf(a), jsonOf(b)), ES(Meth(b, "pop")), Pr(S("result-popped"), jsonOf(a), jsonOf(b)))
+			default:
+				body = append(body, ES(Meth(a, "push", N("8"))), Pr(S("receiver-pushed"), jsonOf(a), jsonOf(b), Meth(b, "length")), asg(Idx(b, N("2")), N("9")), Pr(S("result-extended"), jsonOf(a), jsonOf(b)))
+			}
+			p := &Program{Items: []any{&Rule{Kind: "BEGIN", Body: &Block{Stmts: body}}}}
+			c.NonTrivial(fmt.Sprintf("sortfresh:%d:%d", ln, variant))
+			c.Count("sort_result_is_fresh_programs")
+			m2(c, &M2Case{Prog: p, Desc: fmt.Sprintf("sort() of %d elements gives a new array", ln)})
+		}
+	}
 	// sort: long arrays (library sorts switch algorithm with length) with equal keys of different kinds
 	for n := 0; n < 40; n++ {
 		rng := caseRng(c.Seed, "C15-sort", n)
@@ -367,7 +400,7 @@ func c15Run(c *Case) {
 func init() {
 	register(&Prop{
 		ID: "C15", Level: "exploration",
-		Rule:          "sampled histories of 5-40 operations (push pop popfirst index-read index-write length contains sort, nested method calls inside arguments) over two arrays each held by exactly one name (variable, $-path, object member, array element), element values of every kind; after every operation the program prints the result and json()/length() of both arrays, compared with an ideal-list model; candidate steps leaving the stated semantics are discarded with the model. Enumerated: every ordered pair of 13 operations on arrays of length 0,1,2,5 (676 programs); contains(v) vs v == a[0] on 17x17 value pairs (law on the implementation alone). Non-trivial = history with a removal followed by an append/extension, or a nested call; distinct by program text.",
+		Rule:          "sampled histories of 5-40 operations (push pop popfirst index-read index-write length contains sort, nested method calls inside arguments) over two arrays each held by exactly one name (variable, $-path, object member, array element), element values of every kind; after every operation the program prints the result and json()/length() of both arrays, compared with an ideal-list model; candidate steps leaving the stated semantics are discarded with the model. Enumerated: every ordered pair of 13 operations on arrays of length 0,1,2,5 (676 programs); contains(v) vs v == a[0] on 17x17 value pairs (law on the implementation alone); sort() of 0-3 elements gives a new array (24 programs storing / pushing / popping through the result and the receiver afterwards); 40 sorts of 13-52 elements with equal keys of different kinds (stable). Non-trivial = history with a removal followed by an append/extension, or a nested call; distinct by program text.",
 		NumCases:      c15Cases,
 		Run:           c15Run,
 		MinConclusive: func(tier string) int { return 3000 },
